@@ -16,13 +16,15 @@ pub type Result<T> = core::result::Result<T, VErr>;
 #[derive(Clone, Copy)]
 pub struct StateID { pub v: u32 }
 pub struct SimpleVob { pub data: Vec<u32>, pub size: usize }
+pub struct GrammarStackNode { pub v: u32 }
 
 //@@ struct parser/src/earley/parser.rs LexerState fields=row_idx,lexer_state,byte derive=Clone,Copy
 //@@ struct parser/src/earley/parser.rs RowInfo fields=start_byte_idx,token_idx_start,token_idx_stop
-//@@ struct parser/src/earley/parser.rs Scratch fields=definitive
+//@@ struct parser/src/earley/parser.rs Scratch fields=definitive,grammar_stack,log_override
 //@@ struct parser/src/earley/parser.rs BiasCache
 //@@ struct parser/src/earley/lexerspec.rs LexerSpec fields=has_stop,has_max_tokens
-//@@ struct parser/src/earley/parser.rs ParserState fields=scratch,lexer_stack,lexer_stack_top_eos,rows_valid_end,row_infos,token_idx,bytes,byte_to_token_idx,last_force_bytes_len,parser_error,backtrack_byte_count,bias_cache
+//@@ const parser/src/earley/parser.rs ITEM_TRACE
+//@@ struct parser/src/earley/parser.rs ParserState fields=scratch,trie_lexer_stack,trie_grammar_stack,lexer_stack,lexer_stack_top_eos,lexer_stack_flush_position,rows_valid_end,row_infos,token_idx,bytes,byte_to_token_idx,last_force_bytes_len,parser_error,backtrack_byte_count,bias_cache
 
 // R6: reaching a panic!() is a proof failure (requires false)
 pub fn verif_panic()
@@ -74,6 +76,34 @@ impl ParserState {
         &&& row_idx_monotone(self.lexer_stack@)
     }
 
+    /// everything except lexer_stack is unchanged
+    pub open spec fn same_but_lexer_stack(&self, o: &ParserState) -> bool {
+        &&& self.lexer_stack_top_eos == o.lexer_stack_top_eos && self.rows_valid_end == o.rows_valid_end
+        &&& self.row_infos@ == o.row_infos@ && self.token_idx == o.token_idx && self.bytes@ == o.bytes@
+        &&& self.byte_to_token_idx@ == o.byte_to_token_idx@ && self.last_force_bytes_len == o.last_force_bytes_len
+        &&& self.parser_error == o.parser_error && self.backtrack_byte_count == o.backtrack_byte_count
+        &&& self.bias_cache == o.bias_cache && self.scratch == o.scratch
+        &&& self.trie_lexer_stack == o.trie_lexer_stack && self.trie_grammar_stack == o.trie_grammar_stack
+        &&& self.lexer_stack_flush_position == o.lexer_stack_flush_position
+    }
+    /// the structures that only definitive mode may change are untouched
+    pub open spec fn definitive_part_same(&self, o: &ParserState) -> bool {
+        &&& self.lexer_stack_top_eos == o.lexer_stack_top_eos
+        &&& self.row_infos@ == o.row_infos@ && self.token_idx == o.token_idx && self.bytes@ == o.bytes@
+        &&& self.byte_to_token_idx@ == o.byte_to_token_idx@ && self.last_force_bytes_len == o.last_force_bytes_len
+        &&& self.parser_error == o.parser_error && self.backtrack_byte_count == o.backtrack_byte_count
+        &&& self.bias_cache == o.bias_cache
+    }
+    /// inv() of the state obtained by cutting lexer_stack back to trie_lexer_stack and switching to definitive mode
+    pub open spec fn definitive_prefix_inv(&self) -> bool {
+        let ls = self.lexer_stack@.take(self.trie_lexer_stack as int);
+        &&& ls.len() == self.bytes@.len() + (if self.lexer_stack_top_eos { 2int } else { 1int })
+        &&& self.byte_to_token_idx@.len() <= self.bytes@.len()
+        &&& self.row_infos@.len() == ls[ls.len() - 1].row_idx as int + 1
+        &&& self.backtrack_byte_count == 0
+        &&& row_idx_monotone(ls)
+    }
+
     pub open spec fn same_as(&self, o: &ParserState) -> bool {
         &&& self.lexer_stack@ == o.lexer_stack@
         &&& self.lexer_stack_top_eos == o.lexer_stack_top_eos
@@ -87,6 +117,8 @@ impl ParserState {
         &&& self.backtrack_byte_count == o.backtrack_byte_count
         &&& self.bias_cache == o.bias_cache
         &&& self.scratch == o.scratch
+        &&& self.trie_lexer_stack == o.trie_lexer_stack && self.trie_grammar_stack == o.trie_grammar_stack
+        &&& self.lexer_stack_flush_position == o.lexer_stack_flush_position
     }
 
 //@@ fn parser/src/earley/parser.rs ParserState::lexer_state
@@ -119,6 +151,55 @@ impl ParserState {
 //@@ fn parser/src/earley/parser.rs ParserState::assert_definitive
 //@ spec
     requires self.inv(),
+//@ end
+
+//@@ fn parser/src/earley/parser.rs ParserState::pop_lexer_states
+//@ spec
+    ensures final(self).lexer_stack@ == old(self).lexer_stack@.take(if n <= old(self).lexer_stack@.len() { old(self).lexer_stack@.len() - n } else { 0 }),
+        final(self).same_but_lexer_stack(old(self)),
+//@ end
+
+// R12: `if ITEM_TRACE { .. }` blocks are removed: ITEM_TRACE is the constant `false` (extracted above and checked below)
+//@@ fn parser/src/earley/parser.rs ParserState::trie_started_inner
+//@ rewrite R12 :: if ITEM_TRACE { self.trace_stats0 = self.stats.clone(); self.trace_start = Instant::now(); self.trace_byte_stack.clear(); item_trace!("trie started; {}", lbl); } ==> proof { assert(!ITEM_TRACE); }
+//@ spec
+    requires old(self).inv(),
+    ensures
+        // the speculative walk starts exactly at the definitive state: remembers where the stacks were, touches nothing else
+        final(self).trie_lexer_stack == old(self).lexer_stack@.len(),
+        final(self).trie_grammar_stack == old(self).scratch.grammar_stack@.len(),
+        !final(self).scratch.definitive,
+        final(self).lexer_stack@ == old(self).lexer_stack@,
+        final(self).rows_valid_end == final(self).spec_num_rows(),
+        final(self).definitive_part_same(old(self)),
+//@ end
+
+//@@ fn parser/src/earley/parser.rs ParserState::trie_finished_inner
+//@ rewrite R12 :: if ITEM_TRACE { let mut st = self.stats.clone(); st.lexer_cost = self.lexer().dfa.total_fuel_spent(); st = st.delta(&self.trace_stats0); st.compute_time_us = self.trace_start.elapsed().as_micros() as u64; item_trace!("trie finished: {}", serde_json::to_string(&st).unwrap()); self.trace_byte_stack.clear(); } ==> proof { assert(!ITEM_TRACE); }
+//@ spec
+    requires
+        !old(self).scratch.definitive,
+        old(self).trie_lexer_stack >= 1, old(self).trie_lexer_stack <= old(self).lexer_stack@.len(),
+        old(self).trie_grammar_stack <= old(self).scratch.grammar_stack@.len(),
+        old(self).row_infos@.len() <= old(self).spec_num_rows(), // speculative rows sit on top of the definitive ones
+        // the part of the state below the walk's start is the definitive state it started from
+        old(self).definitive_prefix_inv(),
+    ensures
+        // every speculative push is undone: both stacks are cut back to where trie_started found them
+        final(self).lexer_stack@ == old(self).lexer_stack@.take(old(self).trie_lexer_stack as int),
+        final(self).scratch.grammar_stack@ == old(self).scratch.grammar_stack@.take(old(self).trie_grammar_stack as int),
+        final(self).scratch.definitive, !final(self).scratch.log_override,
+        final(self).rows_valid_end == final(self).spec_num_rows(),
+        final(self).lexer_stack_flush_position == 0,
+        final(self).inv(),
+        final(self).definitive_part_same(old(self)),
+//@ after self.scratch.grammar_stack.truncate(self.trie_grammar_stack);
+    let ghost mid = *self;
+//@ after self.pop_lexer_states(self.lexer_stack.len() - self.trie_lexer_stack);
+    proof {
+        assert(self.lexer_stack@ == old(self).lexer_stack@.take(old(self).trie_lexer_stack as int));
+        assert(row_idx_monotone(self.lexer_stack@));
+    }
 //@ end
 
 //@@ fn parser/src/earley/parser.rs ParserState::rollback
